@@ -688,7 +688,7 @@ pub struct Trailer {
     pub root:               RcRef<Catalog>,
 
     #[pdf(key = "Encrypt")]
-    pub encrypt_dict:       Option<RcRef<CryptDict>>,
+    pub encrypt_dict:       Option<MaybeRef<CryptDict>>,
 
     #[pdf(key = "Info", indirect)]
     pub info_dict:          Option<InfoDict>,
